@@ -262,6 +262,7 @@ func TestVerifToFileChild(t *testing.T) {
 
 	rec := &vfE8Rec{res: res, root: root, gz: sc.GZIP}
 	done := make(chan struct{})
+	fmt.Fprintf(res, "START\n") // syscall leg: everything before this write(2) is harness set-up
 	go func() {
 		f.router()
 		close(done)
